@@ -629,10 +629,10 @@ open TLX.Container (Endian)
 
 /-! ### the dpkt writer produces the draft's encoding -/
 
-/-- the choices `dpkt.pcapng.Writer(file, snaplen=20000)` makes among the variants of the pcapng draft: little
+/-- the choices `dpkt.pcapng.Writer(file, snaplen=Gen.writerSnaplen)` makes among the variants of the pcapng draft: little
     endian, version 1.0, section length unspecified, no options anywhere, one Ethernet interface with snaplen
-    20000 and the default microsecond clock, one EPB per packet on interface 0 with original length = captured length -/
-def dpktVariant : NgVariant := { hdr := { e := .le, snaplen := 20000, idbEoo := false } }
+    as announced and the default microsecond clock, one EPB per packet on interface 0 with original length = captured length -/
+def dpktVariant : NgVariant := { hdr := { e := .le, snaplen := Gen.writerSnaplen, idbEoo := false } }
 
 /-- the event a written packet is -/
 def evOf (p : Bytes × Nat) : Ev := .pkt p.2 p.1
@@ -656,7 +656,7 @@ theorem pad_eq (b : Bytes) : b ++ List.replicate (OutBytes.align4 b.length - b.l
   omega
 
 theorem shb_eq : shb = dpktVariant.hdr.shb.encode .le := by decide +kernel
-theorem idb_eq : idb 20000 = dpktVariant.hdr.idb.encode .le := by decide +kernel
+theorem idb_eq : idb Gen.writerSnaplen = dpktVariant.hdr.idb.encode .le := by decide +kernel
 
 theorem epb_eq (p : Bytes × Nat) (h : PktFits p) :
     epb p.1 p.2 = .ok ((Ev.block {} (evOf p)).encode .le) := by
